@@ -90,7 +90,11 @@ def _format_column(col, max_preview: int | None = None) -> List[str]:
 		elif col._dtype and col._dtype.kind is float:
 			# nan and infinities have no integer value; let :g print them
 			is_whole = v == v and v not in (float('inf'), float('-inf')) and v == int(v)
-			out.append(f"{v:.1f}" if is_whole else f"{v:g}")
+			try:
+				out.append(f"{v:.1f}" if is_whole else f"{v:g}")
+			except OverflowError:
+				# an un-coerced int beyond float range stored in a float column
+				out.append(str(v))
 		elif col._dtype and col._dtype.kind is int:
 			out.append(str(v))
 		elif col._dtype and col._dtype.kind is date:
